@@ -65,7 +65,7 @@ NoSignFusion(ts) ==
   \A i \in 1..(Len(ts) - 1) : ~(ts[i] = OP("-") /\ ts[i + 1] = OP("-") /\ PrefixPos(ts, i))
 
 \* join conditions are compared by truth (see DESIGN.md, C03)
-SameAt(pos, a, b) == IF pos \in {"joinOn", "joinOn2"} THEN TruthNF(a) = TruthNF(b) ELSE a = b
+SameAt(pos, a, b) == IF pos \in {"joinOn", "joinOn2", "joinNested"} THEN TruthNF(a) = TruthNF(b) ELSE a = b
 
 Tables == {"ch", "pg"}
 
@@ -87,7 +87,7 @@ ExprDesignOK ==
     LET e == ExprOf(Family, ch)
         pos == PosOf(Family, ch)
         sc == CaseSc
-        ctx == [mode |-> IF pos \in {"joinOn", "joinOn2"} THEN "join" ELSE "default", scope |-> ScopeToks(sc)]
+        ctx == [mode |-> IF pos \in {"joinOn", "joinOn2", "joinNested"} THEN "join" ELSE "default", scope |-> ScopeToks(sc)]
         ts == Em(e, ctx)
     IN /\ ~HasErr(ts)
        /\ NoSignFusion(ts)
@@ -108,6 +108,18 @@ VARIABLE l
 
 \* where the designated expression sits in the statement pql produces for the
 \* one-operator programs of GenProg!InPos / the expression families
+\* all join sources of a statement in the order of definition (CTEs first, sub-selects before their readers)
+RECURSIVE JoinsOfSrc(_)
+JoinsOfSrc(src) ==
+  CASE src.k = "table" -> <<>>
+    [] src.k = "sub" -> JoinsOfSrc(src.sel.from)
+    [] src.k = "join" -> JoinsOfSrc(src.l) \o JoinsOfSrc(src.r) \o <<src>>
+AllJoins(st) ==
+  LET RECURSIVE C(_)
+      C(i) == IF i > Len(st.ctes) THEN <<>> ELSE JoinsOfSrc(st.ctes[i].sel.from) \o C(i + 1)
+  IN C(1) \o JoinsOfSrc(st.main.from)
+HasExtraCond(j) == j.on.k = "Bin" /\ j.on.op = "AND"
+
 Slot(st, pos) ==
   LET m == st.main IN
   CASE pos = "where" -> m.where
@@ -122,6 +134,7 @@ Slot(st, pos) ==
     [] pos = "topBy" -> m.order[1].e
     [] pos = "joinOn" -> m.from.on
     [] pos = "joinOn2" -> m.from.on.y
+    [] pos = "joinNested" -> LET js == SelectSeq(AllJoins(st), HasExtraCond) IN IF js = <<>> THEN SNone ELSE js[1].on.y
     [] pos = "let" -> m.where.args[1].y
     [] pos = "arg" -> m.where.args[2]
     [] pos = "index" -> m.where.index
@@ -137,7 +150,7 @@ JoinCond(e) ==
 \* (a bare name by C01's "parentheses only change grouping", an ordinary boolean
 \* column by the letter of the join rule); both readings are accepted
 Meanings(pos, e) ==
-  IF pos \in {"joinOn", "joinOn2"}
+  IF pos \in {"joinOn", "joinOn2", "joinNested"}
   THEN IF e.k = "Paren" THEN {JoinCond(Unwrap(e)), Unwrap(e)} ELSE {JoinCond(e)}
   ELSE {e}
 
